@@ -465,6 +465,16 @@ func runC12(w *World, c *Check) {
 		}
 		la := NewFuncAn(w, lf)
 		lw := w.Pos(lf.Pos())
+		// the loop may live in a helper introduced later and shared by both transports, which is
+		// given the network name and the send step (a literal that only forwards to sendUDP/TCP):
+		// the rule then reads the helper with this function's arguments
+		if len(la.Calls(lk.send)) == 0 {
+			if h, args, ok := sharedDialLoop(la, lk.send); ok {
+				la = NewFuncAnCtx(w, h, args)
+				lf = h
+				lk.send = `dyn:` + lk.send
+			}
+		}
 		// loop bound: $L > len(kdcs) exits; $L starts at 1 and is incremented by 1
 		var hdr *ssa.BasicBlock
 		var idx *ssa.Phi
@@ -958,4 +968,103 @@ func nthCall(fa *FuncAn, ci ssa.CallInstruction) int {
 		}
 	}
 	return n
+}
+
+// sharedDialLoop: fa's function only hands its arguments to one helper introduced later, returns
+// what the helper returns, and passes as one argument a function literal that only forwards
+// (conn.(*net.XConn), b) to the send function. It returns the helper and the call's arguments in
+// fa's terms, with the literal spelled as the send function it forwards to.
+func sharedDialLoop(fa *FuncAn, sendRe string) (*ssa.Function, []string, bool) {
+	var site *ssa.Call
+	for _, b := range fa.Fn.Blocks {
+		for _, in := range b.Instrs {
+			switch x := in.(type) {
+			case *ssa.Call:
+				if site != nil {
+					return nil, nil, false
+				}
+				site = x
+			case *ssa.Return:
+				if site == nil || !forwardsTupleOf(RetResults(x), site) {
+					return nil, nil, false
+				}
+			}
+		}
+	}
+	if site == nil {
+		return nil, nil, false
+	}
+	h := site.Call.StaticCallee()
+	if h == nil || !newHelper(h) || len(h.Blocks) == 0 {
+		return nil, nil, false
+	}
+	args := fa.CallArgs(site)
+	found := false
+	for i, a := range site.Call.Args {
+		var lit *ssa.Function
+		switch x := a.(type) {
+		case *ssa.Function:
+			lit = x
+		case *ssa.MakeClosure:
+			lit, _ = x.Fn.(*ssa.Function)
+		}
+		if lit == nil {
+			continue
+		}
+		name, ok := forwardsToSend(fa.W, lit, sendRe)
+		if !ok || found || i >= len(args) {
+			return nil, nil, false
+		}
+		args[i] = name
+		found = true
+	}
+	return h, args, found
+}
+
+func forwardsTupleOf(rs []ssa.Value, call *ssa.Call) bool {
+	if !forwardsTuple(rs) {
+		return false
+	}
+	return rs[0].(*ssa.Extract).Tuple == ssa.Value(call)
+}
+
+// forwardsToSend: lit is func(conn net.Conn, b []byte) { return send(conn.(*T), b) }.
+func forwardsToSend(w *World, lit *ssa.Function, sendRe string) (string, bool) {
+	if len(lit.Params) != 2 || len(lit.FreeVars) != 0 {
+		return "", false
+	}
+	var call *ssa.Call
+	for _, b := range lit.Blocks {
+		for _, in := range b.Instrs {
+			switch x := in.(type) {
+			case *ssa.Call:
+				if call != nil {
+					return "", false
+				}
+				call = x
+			case *ssa.Return:
+				if call == nil || !forwardsTupleOf(RetResults(x), call) {
+					return "", false
+				}
+			case *ssa.TypeAssert:
+				if x.CommaOk || x.X != ssa.Value(lit.Params[0]) {
+					return "", false
+				}
+			case *ssa.DebugRef, *ssa.Extract:
+			default:
+				return "", false
+			}
+		}
+	}
+	if call == nil {
+		return "", false
+	}
+	f := call.Call.StaticCallee()
+	if f == nil || !fullMatch(sendRe, calleeName(f)) || len(call.Call.Args) != 2 || call.Call.Args[1] != ssa.Value(lit.Params[1]) {
+		return "", false
+	}
+	if ta, ok := call.Call.Args[0].(*ssa.TypeAssert); !ok || ta.X != ssa.Value(lit.Params[0]) {
+		return "", false
+	}
+	return calleeName(f), true
 }
